@@ -19,7 +19,14 @@ constructors are exactly the cases `validate()` distinguishes:
 * `crash` — anything else: it escapes `validate()`, `error_logger` swallows and logs it; nothing is published, no cache is touched.
 
 `to_hover_cache` (util.py) is modelled with its per-line / per-column table and its `KeyError` when a nested generic
-argument sits on a line that has no row yet. Import-free.
+argument sits on a line that has no row yet.
+
+URIs are opaque keys: the caches are indexed with the URI exactly as the client sent it. Two handlers however compare
+`urllib.parse.unquote(uri)` — the percent-*decoded* spelling — with the members of a dependency set (which are `as_uri()`
+spellings, percent-*encoded*): `did_close` removes `unquote(uri)` from every other document's dependency set, and
+`did_change_watched_files` revalidates the documents whose dependency set contains `unquote(change.uri)`. The decoder is a
+parameter `unq : Uri → Uri` of the machine (its values come from the real `urllib.parse.unquote`); for a URI without a
+percent-encoded character it is the identity, for every other URI the two spellings differ. Import-free.
 -/
 namespace Pydjinni.Sys.Lsp
 
@@ -260,11 +267,12 @@ def revalidate (front : Front) (configUri : Uri) (c : Uri) : List Uri → St →
       revalidate front configUri c us s1 (pubs ++ p) (errs + e)
     else revalidate front configUri c us s pubs errs
 
-def watchedLoop (front : Front) (configUri : Uri) : List Uri → St → List (Uri × List Diag) → Nat → St × List (Uri × List Diag) × Nat
+/-- `for change in params.changes: path = unquote(change.uri); for uri, deps in dependency_cache.items(): if path in deps: validate` -/
+def watchedLoop (front : Front) (configUri : Uri) (unq : Uri → Uri) : List Uri → St → List (Uri × List Diag) → Nat → St × List (Uri × List Diag) × Nat
   | [], s, pubs, errs => (s, pubs, errs)
   | c :: cs, s, pubs, errs =>
-    let (s1, p, e) := revalidate front configUri c s.depKeys s pubs errs
-    watchedLoop front configUri cs s1 p e
+    let (s1, p, e) := revalidate front configUri (unq c) s.depKeys s pubs errs
+    watchedLoop front configUri unq cs s1 p e
 
 /-- `hover_cache.get(uri, {}).get(row, {}).get(col)` with `row = line + 1` -/
 def cell (s : St) (u : Uri) (line col : Nat) : Option Entry :=
@@ -297,7 +305,7 @@ def symbolsAnswer (s : St) (u : Uri) (hier : Bool) : Answer :=
       | some defs => .symbols (defs.filterMap (·.info))
       | none => .null                           -- KeyError in the handler; excluded by `Inv` (both caches are written together)
 
-def step (front : Front) (configUri : Uri) (s : St) : Ev → St × Out
+def step (front : Front) (configUri : Uri) (unq : Uri → Uri) (s : St) : Ev → St × Out
   | .open_ u t =>
     let (s1, p, e) := validate front configUri { s with docs := upd s.docs u (some t) } u
     (s1, { pubs := p, errors := e })
@@ -312,18 +320,19 @@ def step (front : Front) (configUri : Uri) (s : St) : Ev → St × Out
     | none => (s, { misuse := true })
     | some _ =>
       ({ s with docs := upd s.docs u none, astC := upd s.astC u none, defC := upd s.defC u none, hoverC := upd s.hoverC u none,
-                depC := fun x => if x = u then none else (s.depC x).map (fun deps => deps.filter (· != u)),
+                -- the four caches are popped with the URI as sent; the other documents' dependency sets lose `unquote(uri)`
+                depC := fun x => if x = u then none else (s.depC x).map (fun deps => deps.filter (· != unq u)),
                 depKeys := s.depKeys.filter (· != u) }, {})
   | .save _ => (s, {})
   | .hover u line col => (s, { answer := hoverAnswer (cell s u line col) })
   | .definition u line col => (s, { answer := definitionAnswer (cell s u line col) })
   | .symbols u hier => (s, { answer := symbolsAnswer s u hier })
   | .watched changes =>
-    let (s1, p, e) := watchedLoop front configUri changes s [] 0
+    let (s1, p, e) := watchedLoop front configUri unq changes s [] 0
     (s1, { pubs := p, errors := e })
   | .disk => ({ s with epoch := s.epoch + 1 }, {})
 
-def run (front : Front) (configUri : Uri) (es : List Ev) : St := es.foldl (fun s e => (step front configUri s e).1) init
+def run (front : Front) (configUri : Uri) (unq : Uri → Uri) (es : List Ev) : St := es.foldl (fun s e => (step front configUri unq s e).1) init
 
 /-- the handlers as they were in the pinned tree index the cache with the URI: `hover_cache[uri]` -/
 def hoverPinned (s : St) (u : Uri) (line col : Nat) : Out :=
